@@ -39,12 +39,12 @@ Proof.
 Qed.
 
 (* the same at the level of the model: evaluate_metrics + build_violation as generated from the source *)
-Theorem model_boundary d name line0 col cfg kw :
+Theorem model_boundary d name line0 col hl hc cfg kw :
   d = py_metrics_dict \/ d = ts_metrics_dict \/ d = rs_metrics_dict ->
   cf_check cfg && kw = false ->
-  class_rep d name (cf_mm cfg) (cf_ml cfg) kw line0 col cfg = []
-  /\ class_rep d name (S (cf_mm cfg)) (cf_ml cfg) kw line0 col cfg <> []
-  /\ class_rep d name (cf_mm cfg) (S (cf_ml cfg)) kw line0 col cfg <> [].
+  class_rep d name (cf_mm cfg) (cf_ml cfg) kw line0 col hl hc cfg = []
+  /\ class_rep d name (S (cf_mm cfg)) (cf_ml cfg) kw line0 col hl hc cfg <> []
+  /\ class_rep d name (cf_mm cfg) (S (cf_ml cfg)) kw line0 col hl hc cfg <> [].
 Proof.
   intros [-> | [-> | ->]] Hk; rewrite ?class_rep_py, ?class_rep_ts, ?class_rep_rs; now apply unit_boundary.
 Qed.
